@@ -27,6 +27,29 @@ Example C16_ref_ex :
   = Some ([[97]; [98; 32; 99]; [100; 34; 101]; [102]], false).
 Proof. vm_compute. reflexivity. Qed.
 
+(* Agreement with a POSIX shell on inputs free of other metacharacters and of unquoted newlines.
+   [posix_words] (ShellSpec.v; the transcription of XCU 2.2 that C15 uses) accepts a text exactly
+   when it has no unquoted special character (so no unquoted newline either), no open quote and no
+   dangling backslash, and then returns the words the shell obtains.  For every such text without
+   dollar and backquote -- the two characters that stay special inside double quotes, where the
+   package keeps the backslash of an escaped dollar while the shell removes it, see the example --
+   Split returns exactly those words and reports the input complete.  (bin/dash-shell compares both
+   Split and posix_words with /bin/dash and bash --posix on all short strings.) *)
+Theorem C16_posix_agree : forall (s : list N) (ws : list (list N)),
+  Forall no_dollar s -> posix_words s = Some ws -> split s = Some (ws, true).
+Proof. exact split_posix. Qed.
+Print Assumptions C16_posix_agree.
+
+Example C16_posix_agree_ex :
+  (* a <sq>b c<sq> <dq>d<backslash><dq>e<dq> f<backslash><space>g <backslash><newline> h<backslash><newline>i *)
+  posix_words [97; 32; 39; 98; 32; 99; 39; 32; 34; 100; 92; 34; 101; 34; 32; 102; 92; 32; 103; 32; 92; 10; 32; 104; 92; 10; 105]
+  = Some [[97]; [98; 32; 99]; [100; 34; 101]; [102; 32; 103]; [104; 105]]
+  /\ Forall no_dollar [97; 32; 39; 98; 32; 99; 39; 32; 34; 100; 92; 34; 101; 34; 32; 102; 92; 32; 103; 32; 92; 10; 32; 104; 92; 10; 105]
+  (* where the hypothesis is needed: <dq><backslash>$x<dq> is $x to a shell, <backslash>$x to Split *)
+  /\ posix_words [34; 92; 36; 120; 34] = Some [[36; 120]]
+  /\ split [34; 92; 36; 120; 34] = Some ([[92; 36; 120]], true).
+Proof. vm_compute. repeat split; try reflexivity; repeat constructor; discriminate. Qed.
+
 (* ... whatever state the pooled scanner that Split takes was left in (Split resets it). *)
 Theorem C16_ref_pooled : forall (sc : scanner) (s : list N), split_from sc s = Some (ref_split s).
 Proof. exact split_ref_pooled. Qed.
@@ -54,6 +77,39 @@ Example C16_session_ex :   (* a <sq>b  with  Next Next Next Rest Next *)
        [RNext true [97] true; RNext true [98] false; RNext false [98] false; RRest []; RNext false [] false] = true
   /\ session_ok [97; 32; 39; 98] [ONext; ONext; ONext]
        [RNext true [97] true; RNext true [98] true; RNext false [98] true] = false.
+Proof. vm_compute. auto. Qed.
+
+(* The same over the whole API: for every input and EVERY sequence of Next, Rest, Err, Reset (to a
+   fresh reader of the same input), Scanner.Split and Each (the callback returning false at its
+   first, second, ... call, or never) the observations are accepted by [session_okx]
+   (ShellSession.v, written with the reference tokenizer only): Scanner.Split and an Each that is not
+   stopped return all remaining reference words and leave the scanner at its end with Complete =
+   the flag of the last word; an Each stopped at its k-th call has passed exactly the next k words and
+   leaves the scanner where k calls of Next leave it (so a following Rest returns the reference's
+   remainder); Err is nil while input remains and io.EOF once Next has returned false or Rest was
+   called; Reset starts a new session whatever happened before.  Sessions of Next/Rest alone are the
+   special case [C16_sessionx_basic]. *)
+Theorem C16_sessionx : forall (s : list N) (ops : list sc_opx),
+  session_okx s ops (run_opsx s (new_scanner s) ops) = true.
+Proof. exact sessionx_ref. Qed.
+Print Assumptions C16_sessionx.
+
+Theorem C16_sessionx_no_panic : forall (s : list N) (ops : list sc_opx), ~ In XRPanic (run_opsx s (new_scanner s) ops).
+Proof. exact sessionx_no_panic. Qed.
+Print Assumptions C16_sessionx_no_panic.
+
+Theorem C16_sessionx_basic : forall (s0 : list N) (ops : list sc_op) (sc : scanner),
+  run_opsx s0 sc (map xop ops) = map xout (run_ops sc ops).
+Proof. exact run_opsx_basic. Qed.
+Print Assumptions C16_sessionx_basic.
+
+Example C16_sessionx_ex :   (* a <sq>b c<sq> d   with  Each-stopped-at-1, Err, Split, Err, Next, Reset, Each-stopped-at-2, Rest *)
+  run_opsx [97; 32; 39; 98; 32; 99; 39; 32; 100] (new_scanner [97; 32; 39; 98; 32; 99; 39; 32; 100])
+    [XEach 1; XErr; XSplit; XErr; XNext; XReset; XEach 2; XRest]
+  = [XREach [[97]] [97] true; XRErr false; XRSplit [[98; 32; 99]; [100]] [100] true; XRErr true;
+     XRNext false [100] true; XRReset; XREach [[97]; [98; 32; 99]] [98; 32; 99] true; XRRest [100]]
+  /\ session_okx [97; 32; 39; 98] [XSplit] [XRSplit [[97]; [98]] [98] true] = false      (* open quote: Complete must be false *)
+  /\ session_okx [97; 32; 98] [XEach 1; XRest] [XREach [[97]] [97] true; XRRest []] = false. (* Rest after a stopped Each must be b *)
 Proof. vm_compute. auto. Qed.
 
 (* no call of a session panics (the table covers every state/class pair that can be reached) *)
